@@ -99,8 +99,12 @@ class InterpB(Interp):
         return max(1, sum(abs(e) for _, e in nf[1]))
 
     def exact(self, nf):
-        """True when every factor is a synthetic (exactly consistent) unit."""
-        return all(t in self.synthetic for t, _ in nf[1])
+        """True when every factor is a synthetic (exactly consistent) unit and no synthetic unit of
+        this world has been declared against shipped units (whose own definitions agree only to
+        about 1e-6, so a route through them is not exact)."""
+        return not self.linked_to_shipped and all(t in self.synthetic for t, _ in nf[1])
+
+    linked_to_shipped = False
 
     synthetic = frozenset()
 
@@ -116,6 +120,9 @@ class InterpB(Interp):
             return self._args(op, ("a", "unit"), ("expr", "unit"))
         (a, ma), (e, me) = prepared
         a.equals(mag_from(op["m"]) * e)
+        for m_ in (ma, me):
+            if m_ is not None and any(t not in self.synthetic for t, _ in m_[1]):
+                self.linked_to_shipped = True
         if "resize" in op:
             self.sizes[op["resize"]["token"]] = Fraction(op["resize"]["size"])
         if ma is not None and me is not None and len(ma[1]) == 1 and \
